@@ -24,8 +24,8 @@ static struct _cbor_decoder_context *mk_ctx(void) {
 #if defined(TOP_EMPTY)
   __CPROVER_assume(sz == 0);
 #else
-#if defined(TOP_ANY)
-  if (sz == 0) return ctx; /* TOP_ANY includes the empty stack */
+#if defined(TOP_ANY) || defined(TOP_SIMPLE)
+  if (sz == 0) return ctx; /* includes the empty stack */
 #endif
   __CPROVER_assume(sz >= 1);
   struct _cbor_stack_record *rec = mk_block(sizeof(*rec));
@@ -68,11 +68,14 @@ static struct _cbor_decoder_context *mk_ctx(void) {
 #elif defined(TOP_DEF_ARRAY) || defined(TOP_INDEF_ARRAY)
   it = mk_array();
 #if defined(TOP_DEF_ARRAY)
-  __CPROVER_assume(it->metadata.array_metadata.type == _CBOR_METADATA_DEFINITE);
+  /* assigned, not assumed: symex then knows the flavour as a constant and prunes the other branch */
+  it->metadata.array_metadata.type = _CBOR_METADATA_DEFINITE;
+  if (it->data == NULL) it->data = mk_block(0);
   __CPROVER_assume(it->metadata.array_metadata.end_ptr < it->metadata.array_metadata.allocated);
   rec->subitems = it->metadata.array_metadata.allocated - it->metadata.array_metadata.end_ptr;
 #else
   __CPROVER_assume(it->metadata.array_metadata.type == _CBOR_METADATA_INDEFINITE);
+  it->metadata.array_metadata.type = _CBOR_METADATA_INDEFINITE;
   rec->subitems = 0;
 #endif
 #elif defined(TOP_MAP)
@@ -88,7 +91,9 @@ static struct _cbor_decoder_context *mk_ctx(void) {
       rec->subitems = odd ? 1 : 0;
     }
   }
-#elif defined(TOP_TAG)
+#elif defined(TOP_TAG) || defined(TOP_SIMPLE)
+  /* TOP_SIMPLE (leaf / opener callbacks): they never look at the open item themselves - what happens to it is the
+   * business of _cbor_builder_append, represented by its contract - so the cheapest kind of open item is used */
   it = mk_tag();
   it->metadata.tag_metadata.tagged_item = NULL;
   rec->subitems = 1;
@@ -101,7 +106,17 @@ static struct _cbor_decoder_context *mk_ctx(void) {
 #endif
   it->refcount = 1;
   rec->item = it;
-  rec->lower = nondet_ptr();
+  /* the frame below (what remains on top after a pop): absent for depth 1, else some open item */
+  if (sz >= 2) {
+    struct _cbor_stack_record *low = mk_block(sizeof(*low));
+    cbor_item_t *lit = mk_tag();
+    lit->refcount = 1;
+    lit->metadata.tag_metadata.tagged_item = NULL;
+    low->item = lit; low->subitems = 1; low->lower = nondet_ptr();
+    rec->lower = low;
+  } else {
+    rec->lower = NULL;
+  }
 #endif
   return ctx;
 }
@@ -113,6 +128,8 @@ void harness(void) {
   __CPROVER_assume(g_k <= VERIF_MAXCNT);
   g_s.valid = false;
   g_b.append_calls = 0; g_b.appended = NULL; g_b.expect = false; g_b.exp_type = 0; g_b.exp_width = 0; g_b.exp_bits = 0;
+  g_b.exp_src = NULL; g_b.exp_byte = 0;
+  g_b.expect_push = false; g_b.push_type = 0; g_b.push_flavour = 0; g_b.push_arg = 0; g_b.push_subitems = 0;
   g_d.calls = 0; g_d.hits = 0; g_d.last = NULL;
   g_u_src = NULL; g_u_len = 0; g_u_calls = 0; g_u_count = 0; g_u_state = 0;
   struct _cbor_decoder_context *ctx = mk_ctx();
@@ -216,24 +233,94 @@ void harness(void) {
   __CPROVER_assert(0, "COVER syntax error raised");
 #endif
 #endif
+#if defined(H_STRING_CALLBACK)
+  /* a definite (byte) string head with its payload: any length, payload in an exactly-sized buffer */
+  size_t in_len = nondet_size();
+  __CPROVER_assume(in_len <= VERIF_MAXOBJ);
+  unsigned char *src = mk_block(in_len);
+  g_b.expect = true; g_b.exp_type = STR_TYPE; g_b.exp_width = 0; g_b.exp_bits = in_len; g_b.exp_src = src;
+  if (g_k < in_len) g_b.exp_byte = src[g_k];
+#if defined(TOP_BYTESTRING) || defined(TOP_STRING)
+  size_t count0 = CHUNKS(top0)->chunk_count;
+#endif
+  STR_CALLBACK(ctx, src, in_len);
+#if (defined(TOP_BYTESTRING) && defined(STR_IS_BYTES)) || (defined(TOP_STRING) && !defined(STR_IS_BYTES))
+  /* a definite chunk of the same major type inside a chunked string: appended as a chunk */
+  __CPROVER_assert(!ctx->syntax_error && g_b.append_calls == 0 && st->size == size0 && st->top == rec0,
+                   "C02: a same-type definite chunk extends the open chunked string, which stays open");
+  if (!ctx->creation_failed) {
+    __CPROVER_assert(CHUNKS(top0)->chunk_count == count0 + 1, "C02: exactly one chunk is added (chunk boundaries preserved)");
+    __CPROVER_assert(g_live == live0 + 2 || (g_live == live0 + 3), "C13: node + buffer (+ first chunk table) obtained");
+  } else {
+    __CPROVER_assert(g_refused, "C05,C06: creation_failed only after a refused request");
+    __CPROVER_assert(CHUNKS(top0)->chunk_count == count0 && g_live == live0, "C06: refused chunk: string unchanged, nothing left allocated");
+  }
+  __CPROVER_assert(ctx->creation_failed, "COVER chunk added");
+  __CPROVER_assert(!ctx->creation_failed, "COVER chunk refused");
+#else
+  /* anywhere else (no item open, array/map/tag open, or a chunked string of the OTHER major type): a complete item */
+  if (g_b.append_calls == 0) {
+    __CPROVER_assert(ctx->creation_failed && g_refused && g_live == live0 && st->size == size0,
+                     "C06,C05: a string that cannot be allocated raises creation_failed; nothing allocated, nothing changed");
+    __CPROVER_assert(!ctx->syntax_error, "C16,C05: decoding never rejects a string because of its content");
+  } else {
+    __CPROVER_assert(g_b.append_calls == 1, "C02: exactly one item is completed per definite string head");
+  }
+  __CPROVER_assert(!(g_b.append_calls == 1), "COVER string completed");
+  __CPROVER_assert(!(g_b.append_calls == 0), "COVER string refused");
+  __CPROVER_assert(!(g_b.append_calls == 1 && in_len > 100000), "COVER long string completed");
+#endif
+#endif
+#if defined(H_BREAK)
+  /* the break head FF: closes exactly an open indefinite item (a map only at even parity), else a syntax error */
+  bool closable = false;
+#if defined(TOP_INDEF_ARRAY) || defined(TOP_BYTESTRING) || defined(TOP_STRING)
+  closable = true;
+#elif defined(TOP_MAP)
+  closable = top0->metadata.map_metadata.type == _CBOR_METADATA_INDEFINITE && (sub0 % 2 == 0);
+#endif
+  cbor_builder_indef_break_callback(ctx);
+  if (closable) {
+    __CPROVER_assert(g_b.append_calls == 1 && g_b.appended == top0,
+                     "C02: a break closes the open indefinite item, which is handed to its parent");
+    __CPROVER_assert(g_free_calls == 1, "C04: the closed item's stack frame is released, once");
+  } else {
+    __CPROVER_assert(ctx->syntax_error && !ctx->creation_failed && g_b.append_calls == 0 && st->size == size0 && st->top == rec0,
+                     "C02,C05: a break with no open indefinite item (or a map waiting for a value) is a syntax error; nothing changes");
+    __CPROVER_assert(g_free_calls == 0 && g_live == live0, "C04: nothing is released by a rejected break");
+  }
+#if defined(TOP_INDEF_ARRAY) || defined(TOP_BYTESTRING) || defined(TOP_STRING) || defined(TOP_MAP)
+  __CPROVER_assert(!closable, "COVER break closes");
+#endif
+#if !(defined(TOP_INDEF_ARRAY) || defined(TOP_BYTESTRING) || defined(TOP_STRING))
+  __CPROVER_assert(closable, "COVER break rejected");
+#endif
+#endif
 #if defined(H_CALLBACK)
   uint64_t nd = nondet_u64();
   float ndf = nondet_float();
   double ndd = nondet_double();
   bool ndb = nondet_bool();
   size_t L = CBOR_MAX_STACK_SIZE;
+#if defined(CB_PUSH_TYPE)
+  g_b.expect_push = true; g_b.push_type = CB_PUSH_TYPE; g_b.push_flavour = CB_PUSH_FLAVOUR; g_b.push_arg = CB_PUSH_ARG;
+  g_b.push_subitems = (CB_SUBITEMS);
+#endif
 #if defined(CB_EXP_TYPE)
   g_b.expect = true; g_b.exp_type = CB_EXP_TYPE; g_b.exp_width = CB_EXP_WIDTH; g_b.exp_bits = CB_EXP_BITS;
 #endif
   CALL;
   /* common to all callbacks */
-  __CPROVER_assert(!ctx->creation_failed || g_refused || size0 == L || CB_MAY_FAIL_ON_LENGTH,
-                   "C05,C02: creation_failed only after a refused allocation or at the nesting limit");
+  /* (once the completed item has been handed upwards the flags are the upward step's business) */
+  if (g_b.append_calls == 0)
+    __CPROVER_assert(!ctx->creation_failed || g_refused || size0 == L || CB_MAY_FAIL_ON_LENGTH,
+                     "C05,C02: creation_failed only after a refused allocation or at the nesting limit");
 #if defined(CB_LEAF)
   /* a leaf head: one fresh item of exactly the decoded type/width/value is completed */
   __CPROVER_assert(!ctx->syntax_error || g_b.append_calls == 1, "C05: a leaf callback itself never raises a syntax error");
-  if (ctx->creation_failed && g_b.append_calls == 0) {
-    __CPROVER_assert(g_refused && g_live == live0 && st->size == size0, "C06: refused leaf: nothing allocated, nothing changed");
+  if (g_b.append_calls == 0) {
+    __CPROVER_assert(ctx->creation_failed && g_refused && g_live == live0 && st->size == size0,
+                     "C06,C05: a leaf that cannot be allocated raises creation_failed; nothing allocated, nothing changed");
   } else {
     /* type / width / value of the completed leaf are checked as a precondition of the hand-over (APPENDED_AS_EXPECTED) */
     __CPROVER_assert(g_b.append_calls == 1 && g_b.appended != NULL, "C02: exactly one item is completed per leaf head");
@@ -242,19 +329,23 @@ void harness(void) {
   __CPROVER_assert(!(ctx->creation_failed), "COVER leaf refused");
 #elif defined(CB_OPENER)
   /* an opening head: exactly one frame is pushed (C19), or the failure is reported and nothing is left behind */
-  __CPROVER_assert(!ctx->syntax_error, "C05: opening an item never raises a syntax error by itself");
-  if (ctx->creation_failed) {
-    __CPROVER_assert(st->size == size0 && st->top == rec0 && g_b.append_calls == 0, "C19,C06: a refused opener pushes nothing");
+  if (g_b.append_calls == 0) __CPROVER_assert(!ctx->syntax_error, "C05: opening an item never raises a syntax error by itself");
+  if (g_b.append_calls == 1) {
+    __CPROVER_assert(CB_COMPLETE_IF_EMPTY, "C02: only a definite container of size 0 is complete at its opening head");
+  }
+  if (g_b.append_calls == 0 && ctx->creation_failed) {
+    __CPROVER_assert(st->size == size0 && st->top == rec0, "C19,C06: a refused opener pushes nothing");
     __CPROVER_assert(g_live == live0, "C06: a refused opener leaves nothing allocated");
-  } else if (CB_COMPLETE_IF_EMPTY) {
-    __CPROVER_assert(st->size == size0 && g_b.append_calls == 1 && CB_OPENED_CHECK(g_b.appended),
-                     "C02: a definite container of size 0 is complete at once and is handed to its parent (no frame)");
+  } else if (g_b.append_calls == 1) {
+    /* kind / flavour / emptiness of the container are checked when it is handed over (APPENDED_AS_EXPECTED) */
+    __CPROVER_assert(st->size <= size0 && g_b.append_calls == 1,
+                     "C02: a definite container of size 0 is complete at once and is handed to its parent (no frame pushed)");
   } else {
     __CPROVER_assert(size0 < L, "C19: nesting beyond the configured limit is refused (MEMERROR), never accepted");
     __CPROVER_assert(st->size == size0 + 1 && st->top != rec0 && st->top->lower == rec0 && g_b.append_calls == 0,
                      "C19,C02: every opening head pushes exactly one frame");
-    __CPROVER_assert(CB_OPENED_CHECK(st->top->item) && st->top->item->refcount == 1 && st->top->subitems == (CB_SUBITEMS),
-                     "C02: the frame holds a fresh item of the decoded kind/flavour and the number of members due");
+    /* kind / flavour / preallocated size / members due of the new frame's item are checked when it is pushed
+     * (PUSHED_AS_EXPECTED, a precondition asserted at the call site) */
   }
   __CPROVER_assert(!(size0 == L), "COVER opener at the nesting limit");
   __CPROVER_assert(!(ctx->creation_failed && size0 < L), "COVER opener refused by the allocator");
